@@ -14,8 +14,18 @@ from pathlib import Path
 from . import common, learnlib as L, pumllib as P, clilib as C, storelib as S
 
 LEVEL = "proof"
-CUSTOM = dict(jobId="jobIdNew", eventId="eventIdNew", timestamp="timestampNew", previousEventIds="previousEventIdsNew",
-              applicationName="applicationNameNew", jobName="jobNameNew", eventType="eventTypeNew")
+DEFAULT = dict(jobId="jobId", eventId="eventId", timestamp="timestamp", previousEventIds="previousEventIds",
+               applicationName="applicationName", jobName="jobName", eventType="eventType")
+# injective custom mappings (c14_load_save's hypothesis): all-new names, a swap of two PV field names, a chain that
+# reuses a PV field name, a partial mapping
+MAPPINGS = [
+    dict(jobId="jobIdNew", eventId="eventIdNew", timestamp="timestampNew", previousEventIds="previousEventIdsNew",
+         applicationName="applicationNameNew", jobName="jobNameNew", eventType="eventTypeNew"),
+    dict(DEFAULT, applicationName="jobName", jobName="applicationName"),
+    dict(DEFAULT, jobName="eventType", eventType="eventName"),
+    dict(DEFAULT, timestamp="time", previousEventIds="prev"),
+    dict(DEFAULT, eventId="jobId", jobId="eventId"),
+]
 
 
 def gen_scenario(rnd, k):
@@ -51,7 +61,8 @@ def gen_scenario(rnd, k):
             job += 1
             t0 += 5 * 10**9
     rnd.shuffle(evs)
-    return dict(events=evs, async_flag=(k % 2 == 1), custom=(k % 4 >= 2), bs=rnd.choice([3, 1000]))
+    return dict(events=evs, async_flag=(k % 2 == 1), custom=(k % 4 >= 2), mapping=MAPPINGS[(k // 4) % len(MAPPINGS)] if k % 4 >= 2 else None,
+                bs=rnd.choice([3, 1000]))
 
 
 def run_scenario(sc):
@@ -63,7 +74,7 @@ def run_scenario(sc):
         cfg = C.write_config(d, data, None, bs=sc["bs"], sequencer=seqcfg)
         mc = []
         if sc["custom"]:
-            (d / "map.yaml").write_text(yaml.safe_dump(CUSTOM))
+            (d / "map.yaml").write_text(yaml.safe_dump(sc["mapping"]))
             mc = ["-mc", str(d / "map.yaml")]
         rc, tail = C.run_cli(["-o", str(d / "A"), "otel2puml", "-c", str(cfg)], d)
         res["A_rc"] = rc
@@ -119,7 +130,7 @@ def run(out: common.Outcome, explore: int = 0) -> None:
     logging.disable(logging.CRITICAL)
     import tel2puml.events  # noqa: F401
     rnd = random.Random(out.seed * 32452843 + 14)
-    n = explore or (12 if out.tier == "quick" else 120)
+    n = explore or (20 if out.tier == "quick" else 160)
     scs = [gen_scenario(rnd, k) for k in range(n)]
     with ThreadPoolExecutor(max_workers=common.NPROC) as ex:
         results = list(ex.map(run_scenario, scs))
@@ -135,12 +146,15 @@ def run(out: common.Outcome, explore: int = 0) -> None:
             if name not in r["A"] or name not in r["B"]:
                 problems.append((k, f"workflow {name} produced by one route only", ""))
                 continue
-            saved = sorted(canon_job(j, CUSTOM if sc["custom"] else None) for j in r["files"].get(name, []))
+            try:
+                saved = sorted(canon_job(j, sc["mapping"] if sc["custom"] else None) for j in r["files"].get(name, []))
+            except KeyError as e:
+                saved = f"saved file lacks field {e}"
             want = sorted(canon_job(j) for j in mem.get(name, []))
             n_files += len(saved)
             if saved != want:
                 problems.append((k, f"saved PV files of {name} differ from the in-memory stream", ""))
-            if sc["custom"] and any(set(e) != set(CUSTOM.values()) for j in r["files"].get(name, []) for e in j):
+            if sc["custom"] and any(set(e) != set(sc["mapping"].values()) for j in r["files"].get(name, []) for e in j):
                 problems.append((k, f"saved PV files of {name} do not use the custom field names", ""))
             try:
                 pairs.append((P.tokenize(r["A"][name]), P.tokenize(r["B"][name])))
@@ -174,7 +188,7 @@ def run(out: common.Outcome, explore: int = 0) -> None:
             "CLI driven with a jq_query mapping over one JSON file and an in-memory database",
         ]),
     })
-    out.assumptions += ["the custom mapping is injective (c14_load_save's hypothesis; c14_collision_breaks shows it is needed)"]
+    out.assumptions += ["custom mappings are injective (c14_load_save's hypothesis; c14_collision_breaks shows it is needed): all-new names, swaps and chains reusing PV field names, partial"]
 
 
 def replay(out, rp):
